@@ -94,6 +94,22 @@ class CountingIter:
         return sum(len(c) for c in self.chunks[self.i:])
 
 
+class CountingSock(CountingIter):
+    """The same reads offered through the socket interface (recv), so that the parser builds a SocketUnreader: recv(n) returns
+    the next chunk (all chunks are at most 8192 bytes = max_chunk; a larger n never merges two chunks, as a socket may
+    always return less than asked)."""
+
+    def recv(self, n):
+        if self.i >= len(self.chunks):
+            return b""
+        c = self.chunks[self.i]
+        if len(c) > n:                     # never with the chunk sizes generated here; kept for safety
+            self.chunks[self.i] = c[n:]
+            return c[:n]
+        self.i += 1
+        return c
+
+
 class RecordingBody:
     """Stands in for req.body while Parser.__next__ drains it: records when the drain completed and
     what was left in the unreader at that moment."""
@@ -196,13 +212,13 @@ def do_call(body, call):
     raise ValueError(kind)
 
 
-def run_impl(spec, chunks, progs, peer=DEFAULT_PEER, structured=None):
+def run_impl(spec, chunks, progs, peer=DEFAULT_PEER, structured=None, sock=False):
     """Iterate the real RequestParser over `chunks`, running progs[k] on the k-th request's body.
     Returns (observation int list, ExtRecorder).  `structured` (a list) receives per-request dicts
     for the property oracles."""
     from gunicorn.http import RequestParser
     cfg = real_cfg(spec)
-    it = CountingIter(chunks)
+    it = CountingSock(chunks) if sock else CountingIter(chunks)
     out = []
     with ExtRecorder() as rec:
         parser = RequestParser(cfg, it, peer)
